@@ -155,15 +155,21 @@ def relink_skip_only_dirs(ck: Checker, rule: str) -> None:
     ck.floor(rule, len(loops), 1, "loop over unchanged entries in _determine_files_to_relink")
     for h in loops:
         decide = {n.id for n in g.nodes.values() if h.id in n.loops for c in calls_at(n) if call_name(c) in ("_needs_relink", "mappend") or is_method_call(c, "append")}
+        # `relink_needed = True` (decided without looking: no metadata) counts as a decision too
+        decide |= {n.id for n in g.nodes.values() if h.id in n.loops and n.kind == "stmt" and isinstance(n.ast, ast.Assign) and isinstance(n.ast.value, ast.Constant) and n.ast.value.value is True}
         lv = norm(h.ast.target)
+        from ..an import with_flags
 
-        def isdir_edge(a, lab, b):
-            if lab == "exc":
-                return True
+        def isdir_lit(a, lab):
             if a.kind != "test":
                 return False
             alts = " | ".join([norm(a.ast)] + [norm(z) for z in expand1(ck.prog, fn, a.ast, levels=2)])
-            return lab == "T" and alts.endswith("oid.isdir") and ("new" in alts)
+            return lab == "T" and any(x.strip().endswith("oid.isdir") and "new" in x for x in alts.split("|"))
+
+        lifted = with_flags(g, isdir_lit, start=h.id)
+
+        def isdir_edge(a, lab, b):
+            return lab == "exc" or lifted(a, lab)
 
         r = g.reach([d for lab, d in h.succ if lab == "T"], skip_node=lambda x: x.id in decide, skip_edge=isdir_edge)
         ck.require(h.id not in r, rule, fn, h, "an unchanged entry is left out of the relink decision only when it is a directory",
@@ -355,3 +361,53 @@ def storage_prefix_default(ck: Checker, rule: str) -> None:
                            f"`{norm(x)}` replaces an explicitly given empty prefix () by the key (truthiness test): paths below the storage are then resolved against the wrong root",
                            construct=f"{norm(x)[:50]} / is None")
     ck.floor(rule, n, 1, "prefix defaulting in FileStorage.__init__")
+
+
+def merge_loads_strict(ck: Checker, rule: str) -> None:
+    """tree.merge(): the three inputs are loaded with load(odb, <info>) - a missing or corrupt input must fail
+    the merge, not be replaced by an empty tree (only an absent ancestor_info means 'empty ancestor')."""
+    fn = ck.prog.func("hashfile.tree", "merge")
+    g = ck.cfg(fn)
+    bad = [c for c in walk_own(fn.node) if isinstance(c, ast.Call) and call_name(c) in ("_try_load", "find_tree_by_obj_id")]
+    for c in bad:
+        ck.fail(rule, fn, c, f"merge() loads an input with `{norm(c)[:50]}`, which swallows a missing / corrupt object: the merge then runs against an empty tree and resurrects or drops entries instead of failing",
+                construct=f"{norm(c)[:40]} / tolerant load")
+    loads = [c for c in walk_own(fn.node) if isinstance(c, ast.Call) and call_name(c) == "load" and len(c.args) >= 2]
+    if bad and len(loads) < 3:
+        return
+    ck.floor(rule, len(loads), 3, "load(odb, <info>) calls in tree.merge")
+    infos = sorted({norm(c.args[1]) for c in loads})
+    ck.require({"ancestor_info", "our_info", "their_info"} <= set(infos), rule, fn, fn.node, "ancestor, ours and theirs are each loaded from their own id", f"merge() loads {infos}", construct="load(odb, *_info)")
+    # Tree() stands in for the ancestor only when no ancestor id was given
+    for n in g.nodes.values():
+        a = n.ast
+        if n.kind == "stmt" and isinstance(a, ast.Assign) and isinstance(a.value, ast.Call) and call_name(a.value) == "Tree" and not a.value.args and isinstance(a.targets[0], ast.Name) and "ancestor" in a.targets[0].id:
+            w = cut(g, [n.id], lambda t, lab: t.kind == "test" and norm(t.ast) == "ancestor_info" and lab == "F")
+            ck.require(w is None, rule, fn, n, "an empty ancestor is used only when no ancestor id was given", "an empty tree can stand in for the ancestor although an ancestor id was given (its object missing or unreadable)", witness=g.fmt_path(w) if w else None)
+    for h in [x for x in g.nodes.values() if x.kind == "handler"]:
+        t = norm(h.ast.type) if h.ast.type is not None else "<bare>"
+        swallow = g.exit in g.reach([h.id], skip_edge=lambda a, lab, b: lab == "exc")
+        ck.require(not swallow, rule, fn, h, "load errors are not swallowed in merge()", f"merge() swallows {t} while loading its inputs", construct=f"except {t} / swallowed")
+
+
+def tree_load_rejects_only_nonlist(ck: Checker, rule: str) -> None:
+    fn = ck.prog.func("hashfile.tree", "Tree.load")
+    g = ck.cfg(fn)
+    raises = [n for n in g.nodes.values() if n.kind == "stmt" and isinstance(n.ast, ast.Raise) and n.ast.exc is not None and "ObjectFormatError" in norm(n.ast.exc) and not any(h.kind == "handler" and n.id in g.reach([h.id], skip_edge=lambda a, lab, b: lab == "exc") for h in g.nodes.values())]
+    for n in raises:
+        w = cut(g, [n.id], lambda t, lab: t.kind == "test" and isinstance(t.ast, ast.Call) and call_name(t.ast) == "isinstance" and "list" in norm(t.ast) and lab == "F")
+        ck.require(w is None, rule, fn, n, "a parsed listing is rejected only when it is not a list", "a well-formed listing can be rejected as corrupted without failing the `isinstance(raw, list)` test (e.g. the empty listing [] of an empty directory treated as falsy)",
+                   witness=g.fmt_path(w) if w else None, construct=f"{n.text()[:50]} / only non-list")
+
+
+def trie_setitem_always_writes(ck: Checker, rule: str) -> None:
+    cls = ck.prog.cls("index.index", "DataIndexTrie")
+    m = cls.methods.get("__setitem__")
+    if m is None:
+        return
+    g = ck.cfg(m)
+    dele = {n.id for n in g.nodes.values() for c in calls_at(n) if isinstance(c.func, ast.Attribute) and norm(c.func.value).startswith("super(") and c.func.attr == "__setitem__"}
+    r = g.reach([g.entry], skip_node=lambda x: x.id in dele, skip_edge=lambda a, lab, b: lab == "exc")
+    ck.require(bool(dele) and g.exit not in r, rule, m, m.node, "every assignment into the trie is written through to the backing store",
+               "DataIndexTrie.__setitem__ can return without delegating the write (e.g. a fast path when the cached entry compares equal): fields excluded from equality, or an entry mutated in place, never reach the SQLite store",
+               witness=g.fmt_path(g.path_to(r, g.exit)) if g.exit in r else None, construct="__setitem__ / always writes")
